@@ -8,6 +8,7 @@ import FerretVerif.Drv.Literal
 import FerretVerif.Drv.Layout
 import FerretVerif.Drv.Toml
 import FerretVerif.Drv.DepGraph
+import FerretVerif.Drv.RtMap
 
 open FerretVerif
 
@@ -27,6 +28,21 @@ def eachLine (f : String → String) : IO Unit := do
 
 open FerretVerif.Drv
 
+def eachLineState {σ : Type} (init : σ) (f : σ → String → σ × String) : IO Unit := do
+  let stdin ← IO.getStdin
+  let stdout ← IO.getStdout
+  let rec loop : Nat → σ → IO Unit
+    | 0, _ => pure ()
+    | n + 1, st => do
+      let line ← stdin.getLine
+      if line.isEmpty then return ()
+      let l := (line.dropRightWhile (fun c => c == '\n' || c == '\r'))
+      let (st', out) := f st l
+      stdout.putStrLn out
+      loop n st'
+  loop 1000000000 init
+  stdout.flush
+
 def cmdLossless (l : String) : String :=
   match fields l with
   | [s, t] =>
@@ -43,6 +59,7 @@ def main (args : List String) : IO UInt32 := do
   | ["limbs"] => eachLine cmdLimbs; return 0
   | ["literal"] => eachLine cmdLiteral; return 0
   | ["layout"] => eachLine cmdLayout; return 0
+  | ["rt"] => eachLineState ({} : RtState) stepRt; return 0
   | ["depgraph"] => eachLine cmdDepGraph; return 0
   | ["sched"] => eachLine cmdSched; return 0
   | ["toml-fmt"] => eachLine cmdTomlFmt; return 0
